@@ -1010,9 +1010,14 @@ impl OptimizerRule for PushDownFilter {
                 let predicates = split_conjunction_owned(filter.predicate);
                 let mut keep_predicates = vec![];
                 let mut push_predicates = vec![];
+                // An aggregate without grouping expressions produces exactly one row
+                // even for empty input, so no predicate (not even a column-free one,
+                // e.g. a comparison with an uncorrelated scalar subquery) may move
+                // below it: that would keep the row the filter is meant to remove.
+                let can_push = !agg.group_expr.is_empty();
                 for expr in predicates {
                     let cols = expr.column_refs();
-                    if cols.iter().all(|c| group_expr_columns.contains(c)) {
+                    if can_push && cols.iter().all(|c| group_expr_columns.contains(c)) {
                         push_predicates.push(replace_cols_by_name(expr, &replace_map)?);
                     } else {
                         keep_predicates.push(expr);
